@@ -1,6 +1,9 @@
 (* C04 — Range iterators yield exactly the in-range entries, in order, for all bounds.
-   Statements only.  Proved so far: the specification is the filter by both bounds; the iterator
-   transcription (Iter.range_next / rev_range_next over Reader.cstep) is validated by the correspondence. *)
+   Statements only.  C04_range / C04_rev_range: on every well-formed store (any index depth), and so
+   (the C04_written theorems) on every file the writer model finishes from a non-empty ascending input, the
+   transcribed iterators (Iter.range_next / rev_range_next over Reader.cstep) collect, up to their
+   first None, exactly the filter of the content by both bounds, in order / in reverse.  fuel is the
+   bound on the number of next() calls of the executable collect loop (any value above length + 1). *)
 From Grenad.model Require Import Base Block Reader Spec Iter.
 From Grenad.proofs Require Import SpecProofs.
 
@@ -22,3 +25,41 @@ Example C04_spec_examples :
   range_spec es (Excluded [1]) (Included [3]) = [([2], []); ([3], [])] /\
   range_spec es (Included [3]) (Excluded [1]) = [] /\ range_spec es Unbounded Unbounded = es.
 Proof. vm_compute. repeat split; reflexivity. Qed.
+
+(* ================= the iterators over the multi-level cursor ================= *)
+From Grenad.model Require Import Trailer Writer.
+From Grenad.proofs Require Import ReaderRefine WriterStore IterRefine WrittenIter.
+
+Theorem C04_range : forall ld root levels bstore, wf_store ld root levels bstore ->
+  forall lo hi fuel, (S (length (content root levels bstore)) < fuel)%nat ->
+  collect (range_next (cstep ld root levels) lo hi) fuel iter_new = Done (range_spec (content root levels bstore) lo hi).
+Proof. exact R_range_fwd. Qed.
+Print Assumptions C04_range.
+
+Theorem C04_rev_range : forall ld root levels bstore, wf_store ld root levels bstore ->
+  forall lo hi fuel, (S (length (content root levels bstore)) < fuel)%nat ->
+  collect (rev_range_next (cstep ld root levels) lo hi) fuel iter_new = Done (rev (range_spec (content root levels bstore) lo hi)).
+Proof. exact R_range_bwd. Qed.
+Print Assumptions C04_rev_range.
+
+Theorem C04_written_range : forall compress decompress c,
+  (forall b z, compress (wc_codec c) (wc_level c) b = Done z -> decompress (wc_codec c) z = Done b) ->
+  forall es i s lg m, wc_levels c < 256 -> 1 <= wc_interval c ->
+  w_run_gen vsink vs_wr vs_fl vs_count compress c vs_empty es = (i, Done (s, lg, m)) ->
+  es <> [] -> sorted_strictb (map fst es) = true ->
+  len (vs_bytes s) < 2^64 -> mem_ok lg ->
+  forall lo hi fuel, (S (length es) < fuel)%nat ->
+  collect (range_next (cstep (load_block decompress (vs_bytes s) (m_codec m)) (m_root m) (m_levels m)) lo hi) fuel iter_new = Done (range_spec es lo hi).
+Proof. exact written_range_fwd. Qed.
+Print Assumptions C04_written_range.
+
+Theorem C04_written_rev_range : forall compress decompress c,
+  (forall b z, compress (wc_codec c) (wc_level c) b = Done z -> decompress (wc_codec c) z = Done b) ->
+  forall es i s lg m, wc_levels c < 256 -> 1 <= wc_interval c ->
+  w_run_gen vsink vs_wr vs_fl vs_count compress c vs_empty es = (i, Done (s, lg, m)) ->
+  es <> [] -> sorted_strictb (map fst es) = true ->
+  len (vs_bytes s) < 2^64 -> mem_ok lg ->
+  forall lo hi fuel, (S (length es) < fuel)%nat ->
+  collect (rev_range_next (cstep (load_block decompress (vs_bytes s) (m_codec m)) (m_root m) (m_levels m)) lo hi) fuel iter_new = Done (rev (range_spec es lo hi)).
+Proof. exact written_range_bwd. Qed.
+Print Assumptions C04_written_rev_range.
